@@ -6,7 +6,9 @@ mode x hook sets, against independent reachability / order predicates.
 import itertools
 import random
 
-from vlib import circ, circgen
+import z3
+
+from vlib import circ, circgen, forkexec, symnet
 from checks.common import REPLAY_PRELUDE
 
 LEVEL = "exploration"
@@ -21,11 +23,11 @@ from cirbo.core.circuit.exceptions import CircuitValidationError  # noqa: E402
 def nexts(c, lab, inverse):
     if inverse:
         return [u for u, g in c.gates.items() for o in g.operands if o == lab]
-    return list(c.gates[lab].operands)
+    return [symnet.plain(o) for o in c.gates[lab].operands]
 
 
 def reach(c, starts, inverse):
-    seen, st = set(), list(starts)
+    seen, st = set(), [symnet.plain(x) for x in starts]
     while st:
         l = st.pop()
         if l in seen:
@@ -278,6 +280,97 @@ def replace_history(rnd, tag):
     return c, src
 
 
+def symbolic_unit(p, item, tier, seed):
+    """Every netlist of a shape at once: operands, outputs and start lists are symbolic labels (vlib/symnet.py);
+    the executor forks only where the traversal (or the oracle) looks a label up, z3 proves the paths cover all choices."""
+    kind, n_in, arities, n_out, n_starts, mode, inverse, tsu = item
+    net = symnet.SymNetlist(n_in, arities, n_out, cyclic=(kind == "cycle"), tag="n")
+    if not net.feasible():
+        return
+    start_vars = [z3.Int(f"n_start_{i}") for i in range(n_starts or 0)]
+    base = net.base() + [z3.And(v >= 0, v < len(net.nodes)) for v in start_vars]
+
+    def body():
+        c = net.build()
+        if kind == "cycle":
+            from cirbo.core.circuit.validation import check_circuit_has_no_cycles
+
+            try:
+                check_circuit_has_no_cycles(c)
+                got = False
+            except CircuitValidationError:
+                got = True
+            expect = has_cycle_from_outputs(c)
+            return [] if got == expect else [f"cycle check {'raised' if got else 'passed'} but a cycle is {'reachable' if expect else 'not reachable'} from the outputs"]
+        starts = None if n_starts is None else [symnet.SymLabel(v, net.nodes) for v in start_vars]
+        if kind == "topsort":
+            return circ.topsort_problems(c)
+        return traversal_problems(c, mode, starts, inverse, tsu)
+
+    paths, stats = forkexec.explore(body, base=base, max_paths=400000, catch=(Exception,))
+    total = 1
+    for j, a in enumerate(arities):
+        total *= len(net.universe(j)) ** a
+    total *= len(net.nodes) ** (n_out + (n_starts or 0))
+    p.case(("sym", item), sample=f"{kind} {mode} inverse={inverse} unvisited-in-order={tsu}: every netlist with {n_in} inputs, gate arities {arities}, {n_out} outputs, "
+           f"start list {'absent' if n_starts is None else 'of length ' + str(n_starts)} -- {total} netlists covered by {stats['paths']} paths")
+    p.count("symbolic_netlists_covered", total)
+    p.count("symbolic_paths", stats["paths"])
+    p.count("feasibility_queries", stats["queries"])
+    p.queries["unsat" if stats["covered"] else "unknown"] += 1
+    p.solver_s += stats.get("solver_s", 0.0)
+    if not stats["covered"]:
+        p.error(f"coverage not proven for {item}")
+    for path in paths:
+        probs = [f"raised {type(path.exc).__name__}: {path.exc}"] if path.exc is not None else path.result
+        if not probs:
+            continue
+        m = symnet.path_model(path, base)
+        p.queries["sat" if m is not None else "unknown"] += 1
+        if m is None:
+            continue
+        cc = net.concrete_circuit(m)
+        starts = None if n_starts is None else [net.nodes[m.eval(v, model_completion=True).as_long()] for v in start_vars]
+        if kind == "cycle":
+            cycle_verdict(p, cc, sample=None)
+        elif kind == "topsort":
+            p.violation("traverse:top_sort:symbolic", f"{probs[:2]} for {circ.describe(cc)}", src_for(cc) + "bad=circ.topsort_problems(c)\nprint(bad); sys.exit(1 if bad else 0)\n")
+        else:
+            p.violation(f"traverse:{mode}:{'inverse' if inverse else 'forward'}:symbolic", f"{mode}(start={starts}, inverse={inverse}, topsort_unvisited={tsu}) on {circ.describe(cc)}: {probs[:2]}",
+                        src_for(cc) + f"try:\n    bad=traversal_problems(c, {mode!r}, {starts!r}, {inverse!r}, {tsu!r})\nexcept Exception as e:\n    bad=[repr(e)]\nprint(bad); sys.exit(1 if bad else 0)\n")
+        return
+
+
+def symbolic_canary(p):
+    """Vacuity guard: judged against the reachable set of the *opposite* direction some path must disagree."""
+    net = symnet.SymNetlist(2, (2, 1), 1, tag="n")
+    sv = z3.Int("n_start_0")
+    base = net.base() + [z3.And(sv >= 0, sv < len(net.nodes))]
+
+    def body():
+        c = net.build()
+        starts = [symnet.SymLabel(sv, net.nodes)]
+        return sorted(g.label for g in c.dfs(starts)) != sorted(reach(c, starts, True))
+
+    paths, stats = forkexec.explore(body, base=base, catch=(Exception,))
+    p.canary(bool(stats["covered"]) and any(pp.exc is None and pp.result for pp in paths) and any(pp.exc is None and not pp.result for pp in paths))
+
+
+def symbolic_items(thorough):
+    items = []
+    shapes = [(1, (1,)), (1, (1, 1)), (1, (2, 1)), (2, (2,)), (2, (2, 1)), (2, (1, 2)), (2, (2, 2))] + ([(1, (1, 2, 2)), (2, (2, 2, 1)), (2, (2, 1, 2)), (2, (2, 2, 2)), (3, (2, 2))] if thorough else [(2, (2, 1, 2))])
+    for n_in, ar in shapes:
+        big = len(ar) >= 3
+        for mode in ("dfs", "bfs"):
+            for inverse in (False, True):
+                for n_starts in (None, 0, 1) + (() if big else (2,)):
+                    for tsu in ((False, True) if not big or thorough else (bool(len(ar) % 2),)):
+                        items.append(("trav", n_in, ar, 1 if big or n_starts == 2 else 2, n_starts, mode, inverse, tsu))
+        items.append(("topsort", n_in, ar, 1, None, "-", False, False))
+        items.append(("cycle", n_in, ar, 1 if big else 2, None, "-", False, False))
+    return items
+
+
 def check_cycles(p, rnd, count):
     from cirbo.core.circuit.validation import check_circuit_has_no_cycles
 
@@ -383,4 +476,11 @@ def run(rep, tier, seed, only=None):
     work += [("history", seed * 5 + s) for s in range(24 if thorough else 8)]
     work += [("replace", seed * 3 + s) for s in range(12 if thorough else 4)]
     work += [("deep", d) for d in ((1100, 1500, 5000) if thorough else (1500,))]
+    if only:
+        work = [w for w in work if only in w[0]]
     rep.pmap(unit, work)
+    if only is None or "symbolic" in only:
+        rep.pmap(symbolic_unit, symbolic_items(thorough))
+        symbolic_canary(rep)
+        rep.bounds["symbolic netlists"] = ("every netlist (all operand, output and start-list choices) with <=2 inputs and gate arities up to (2,2) + (2,1,2) (quick) / up to (2,2,2) and 3 inputs (thorough), "
+                                           "x dfs/bfs x direction x start list absent/empty/1/2 x unvisited order; acyclic for traversals and top_sort, arbitrary (cyclic) for the cycle check")
